@@ -301,7 +301,24 @@ def directed_store():
     ext = lambda v: model.ExternalReference((model.Key(model.KeyTypes.GLOBAL_REFERENCE, v),))
     q = model.Qualifier("q", model.datatypes.String, "v", semantic_id=ext("urn:q:sem"),
                         supplemental_semantic_id=[ext("urn:q:sup")])
-    sm = model.Submodel("urn:x:directed", [model.Property("p", model.datatypes.String, "x", qualifier=[q])],
+    # optional type attributes that may be present or absent: value_type_list_element of a list whose elements carry
+    # no value type, value_type of an extension
+    typed_lists = [
+        model.SubmodelElementList("l_mlp", model.MultiLanguageProperty,
+                                  [model.MultiLanguageProperty(None, model.MultiLanguageTextType({"en": "a"}))],
+                                  value_type_list_element=model.datatypes.Int, semantic_id_list_element=ext("urn:l:sem")),
+        model.SubmodelElementList("l_smc", model.SubmodelElementCollection, [model.SubmodelElementCollection(None)],
+                                  value_type_list_element=model.datatypes.String, order_relevant=True),
+        model.SubmodelElementList("l_empty", model.File, value_type_list_element=model.datatypes.Double)]
+    sm = model.Submodel("urn:x:directed",
+                        [model.Property("p", model.datatypes.String, "x", qualifier=[q],
+                                        extension=[model.Extension("e1", model.datatypes.Int, 5),
+                                                   model.Extension("e2", model.datatypes.String),
+                                                   model.Extension("e3")])] + typed_lists
+                        + [model.SubmodelElementCollection("c", [model.Entity(
+                            "e", model.EntityType.CO_MANAGED_ENTITY,
+                            [model.SubmodelElementList("l_in", model.Capability, [model.Capability(None)],
+                                                       value_type_list_element=model.datatypes.Boolean)])])],
                         qualifier=[model.Qualifier("q2", model.datatypes.Int, 5, semantic_id=ext("urn:q2:sem"))])
     aas = model.AssetAdministrationShell(
         model.AssetInformation(model.AssetKind.INSTANCE, global_asset_id="urn:x:asset", asset_type="urn:x:type",
@@ -421,8 +438,20 @@ def functions():
     return one, two
 
 
-def call(fn, *paths):
-    """-> (raised class name or None, [step statuses], overall)"""
+def detach_managers(only=None):
+    """removes state managers (all, or one) from every logger: what a fresh process starts with"""
+    from aas_compliance_tool.state_manager import ComplianceToolStateManager
+    for name in list(logging.root.manager.loggerDict):
+        lg = logging.getLogger(name)
+        for h in list(getattr(lg, "handlers", [])):
+            if (h is only) if only is not None else isinstance(h, ComplianceToolStateManager):
+                lg.removeHandler(h)
+
+
+def call(fn, *paths, cleanup=True):
+    """-> (raised exception or None, [step statuses], overall).  cleanup=True gives the verdict of a call that is
+    the first one in its process (no handler of an earlier check is left on the loggers); cleanup=False leaves the
+    process as the tool leaves it, so that the next call runs in the state a second call really finds."""
     from aas_compliance_tool.state_manager import ComplianceToolStateManager
     m = ComplianceToolStateManager()
     raised = None
@@ -431,11 +460,120 @@ def call(fn, *paths):
     except Exception as e:     # noqa
         raised = e
     finally:
-        for name in list(logging.root.manager.loggerDict):
-            lg = logging.getLogger(name)
-            if m in lg.handlers:
-                lg.removeHandler(m)
+        if cleanup:
+            detach_managers(m)
     return raised, [int(s.status) for s in m.steps], int(m.status)
+
+
+def history_files(tmp):
+    """the inputs of check_history: per format good files, a truncated one, a well-formed one holding a broken object
+    (a Property without valueType: the failsafe readers log an error), a missing one"""
+    import re as _re
+    stores = example_stores()
+    files = {}
+    for fmt in ("json", "xml", "aasx-xml", "aasx-json"):
+        ext = fmt.split("-")[0]
+        good = os.path.join(tmp, f"hist-good.{fmt}.{ext}")
+        write_store(stores["full"], fmt, good)
+        other = os.path.join(tmp, f"hist-other.{fmt}.{ext}")
+        write_store(stores["mandatory"], fmt, other)
+        data = canonical_bytes(good, fmt)
+        files.setdefault(ext, {})
+        files[ext][f"good-{fmt}"] = good
+        files[ext][f"other-{fmt}"] = other
+        trunc = os.path.join(tmp, f"hist-trunc.{fmt}.{ext}")
+        open(trunc, "wb").write(data[:len(data) // 2])
+        files[ext][f"truncated-{fmt}"] = trunc
+    # well-formed documents holding a broken object (the failsafe readers log an error): a Property without valueType
+    doc = canonical_doc(json.load(open(files["json"]["good-json"], encoding="utf-8")))
+    n = [0]
+
+    def drop(x):
+        if isinstance(x, dict):
+            if x.get("modelType") == "Property" and "valueType" in x and n[0] < 2:
+                del x["valueType"]
+                n[0] += 1
+            for v in x.values():
+                drop(v)
+        elif isinstance(x, list):
+            for v in x:
+                drop(v)
+    drop(doc)
+    pj = os.path.join(tmp, "hist-broken-object.json")
+    json.dump(doc, open(pj, "w", encoding="utf-8"))
+    files["json"]["broken-object-json"] = pj
+    xml = canonical_bytes(files["xml"]["good-xml"], "xml")
+    xml2 = _re.sub(rb"<(\w+:)?valueType>[^<]*</(\w+:)?valueType>", b"", xml, count=2)
+    px = os.path.join(tmp, "hist-broken-object.xml")
+    open(px, "wb").write(xml2)
+    files["xml"]["broken-object-xml"] = px
+    pa = os.path.join(tmp, "hist-broken-object.aasx")
+    with zipfile.ZipFile(files["aasx"]["good-aasx-xml"]) as zin, zipfile.ZipFile(pa, "w") as zout:
+        for item in zin.infolist():
+            d = zin.read(item.filename)
+            zout.writestr(item, xml2 if item.filename == "aasx/data.xml" else d)
+    files["aasx"]["broken-object-aasx"] = pa
+    for ext in files:
+        files[ext]["missing"] = os.path.join(tmp, "hist-does-not-exist")
+    return files
+
+
+def check_history(chk, rng, quick, tmp, esc_model):
+    """state kept between calls: every check function is called many times in one process with fresh state managers,
+    alternating formats, good and damaged inputs; each verdict must be the one the same call gives as the first call
+    of a process"""
+    one, two = functions()
+    files = history_files(tmp)
+    eq = {"json": "json.check_json_files_equivalence", "xml": "xml.check_xml_files_equivalence",
+          "aasx": "aasx.check_aasx_files_equivalence"}
+    steps = []
+    exts = ["xml", "json", "aasx"]
+    # a fixed prefix that visits every function with a good and a damaged input, then seeded random steps
+    for ext in exts:
+        kinds = sorted(files[ext])
+        for fname in sorted(f for f in one if f.startswith(ext + ".")):
+            for kind in kinds:
+                steps.append((fname, (kind,)))
+        for a in kinds:
+            for b in kinds:
+                if a <= b:
+                    steps.append((eq[ext], (a, b)))
+    rng.shuffle(steps)
+    extra = []
+    for _ in range(30 if quick else 300):
+        ext = rng.choice(exts)
+        kinds = sorted(files[ext])
+        if rng.random() < 0.6:
+            extra.append((rng.choice(sorted(f for f in one if f.startswith(ext + "."))), (rng.choice(kinds),)))
+        else:
+            extra.append((eq[ext], (rng.choice(kinds), rng.choice(kinds))))
+    steps += extra
+
+    def run(step, cleanup):
+        fname, kinds = step
+        ext = fname.split(".")[0]
+        fn = one.get(fname) or two[fname]
+        raised, statuses, overall = call(fn, *[files[ext][k] for k in kinds], cleanup=cleanup)
+        return (type(raised).__name__ if raised is not None else None, statuses), raised
+    detach_managers()
+    history = [run(s, cleanup=False) for s in steps]            # as the tool leaves the process
+    detach_managers()
+    reported = set()
+    for k, (step, (got, raised)) in enumerate(zip(steps, history)):
+        want, _ = run(step, cleanup=True)                         # the same call as the first of its process
+        chk.seen(("history", k, step), nontrivial=True)
+        chk.count("history-steps")
+        rp = {"input_kind": "history", "step": k, "function": step[0], "inputs": list(step[1]),
+              "earlier_calls": [[s[0], list(s[1])] for s in steps[:k]][-12:],
+              "how": "tools/c20.py check_history: the calls in this order in one process, fresh state manager each"}
+        if raised is not None:
+            report_raise(chk, step[0], raised, esc_model, rp)
+        if got != want and step[0] not in reported:
+            reported.add(step[0])
+            chk.fail(f"C20:history:verdict-depends-on-earlier-calls:{step[0]}",
+                     f"{step[0]}({', '.join(step[1])}) as call number {k + 1} of the process: {got}; as the first call of a "
+                     f"process: {want}", rp)
+    chk.cov["history_steps"] = len(steps)
 
 
 def model_exc_name(e):
@@ -484,6 +622,24 @@ def leaves(doc, path=(), frames=()):
             yield from leaves(v, path + (i,), frames)
     else:
         yield path, frames
+
+
+def member_keys(doc, path=(), frames=()):
+    """yields (path of the JSON object, key, frames) for every member of every JSON object, in document order"""
+    if isinstance(doc, dict):
+        if "modelType" in doc and doc["modelType"] != "DataSpecificationIec61360":
+            frames = frames + ((doc["modelType"], None),)
+        for k, v in doc.items():
+            fr = frames
+            if fr and fr[-1][1] is None:
+                fr = fr[:-1] + ((fr[-1][0], snake(k)),)
+            yield path, k, fr
+            if k in CONTEXT_CLASS:
+                fr = fr + ((CONTEXT_CLASS[k], None),)
+            yield from member_keys(v, path + (k,), fr)
+    elif isinstance(doc, list):
+        for i, v in enumerate(doc):
+            yield from member_keys(v, path + (i,), frames)
 
 
 def mutate_leaf(doc, path):
@@ -741,7 +897,7 @@ def run(chk):
     # --- model values needed below
     esc_model, compared_model = {}, {}
     try:
-        txt = common.coq_eval("C20a", PRELUDE, "(map (fun f => (f, enc_esc (escapes functions fuel f))) public_functions, "
+        txt = common.coq_eval("C20a", PRELUDE, "(map (fun f => (f, enc_esc (escapes functions checker_raises fuel f))) public_functions, "
                               "subclass_table, map (fun r => (fst (fst r), compared checker_methods 6 (snd (fst r)))) class_table)")
         body = txt.split(":", 1)[0] if False else txt
         for m in re.finditer(r'\("([a-z_.]+)",\s*\[([^\]]*)\]\)', body):
@@ -786,6 +942,7 @@ def run(chk):
     try:
         check_files(chk, rng, quick, tmp, esc_model, compared_model)
         check_typed_values(chk, rng, quick, tmp, esc_model)
+        check_history(chk, rng, quick, tmp, esc_model)
     finally:
         shutil.rmtree(tmp, ignore_errors=True)
     chk.trusted = [
@@ -808,7 +965,10 @@ def run(chk):
                            "one more decimal digit, +-1, +1 microsecond / day, one character changed/added incl. a "
                            "trailing space, bool flipped, one byte changed/added) of one typed value per xsd type x "
                            "carrier (Property at 6 nesting positions, Range min/max, Qualifier, Extension, Blob) in JSON "
-                           "and XML as second file; non-trivial = a "
+                           "and XML as second file; removal of one member of one JSON object (set -> absent) compared in both "
+                           "directions; a history of >= 100 calls of all functions in one process with fresh state managers, "
+                           "alternating formats and good / truncated / broken-object / missing inputs, each verdict compared "
+                           "with the verdict of the same call as first call of a process; non-trivial = a "
                            "manager sequence of >= 3 ops or a function call that produced a report")
 
 
@@ -1104,6 +1264,60 @@ def check_files(chk, rng, quick, tmp, esc_model, compared_model):
                  f"the {base} store and a copy differing only in {label} (JSON path {path}) compare as equal",
                  {"store": base, "path": path,
                   "how": "tools/c20.py replay: mutates that leaf of the SDK-written store and compares the two files"})
+    # 6. "set -> absent": one member of one JSON object removed in the second file (an optional attribute dropped,
+    #    or a mandatory one - then the reader rejects the file), compared in both directions.  Never an exception;
+    #    and when the SDK itself reads the two files as different data, never SUCCESS.
+    from basyx.aas.adapter.json import read_aas_json_file as _rj
+
+    def reread(p):
+        logging.disable(logging.CRITICAL)       # the failsafe reader's complaints about reduced files are expected
+        try:
+            with open(p, encoding="utf-8") as f:
+                st = _rj(f, failsafe=True)
+            pr = os.path.join(tmp, "reread.json")
+            write_store(st, "json", pr)
+            return json.dumps(canonical_doc(json.load(open(pr, encoding="utf-8"))), sort_keys=True)
+        except Exception as e:      # the reader's own business (C09); then no statement about equal data is made
+            return ("unreadable", type(e).__name__)
+        finally:
+            logging.disable(logging.NOTSET)
+    targets, seen_t = [], set()
+    for base, doc in (("full", full_json), ("directed", directed_json)):
+        for path, key, frames in member_keys(doc):
+            if key == "modelType" or not frames:
+                continue
+            t = (frames[-1][0],) + tuple(k for k in path if isinstance(k, str))[-3:] + (key,)
+            if quick and t in seen_t:
+                continue                      # quick tier: the first object of each (class, key path) in document order
+            seen_t.add(t)
+            targets.append((base, path, key, frames))
+    base_reread = {b: reread(bases[b][1]) for b in bases}
+    ndel = 0
+    for base, path, key, frames in targets:
+        base_doc, base_path = bases[base]
+        d = copy.deepcopy(base_doc)
+        cur = d
+        for k in path:
+            cur = cur[k]
+        del cur[key]
+        p2 = dump(d, "del.json")
+        same_data = None
+        ndel += 1
+        chk.count("deletions")
+        for first, second, direction in ((base_path, p2, "original-vs-reduced"), (p2, base_path, "reduced-vs-original")):
+            raised, statuses, overall = call(two["json.check_json_files_equivalence"], first, second)
+            chk.seen(("deletion", base, path, key, direction), nontrivial=True)
+            label = f"{frames[-1][0]}.{snake(key) if len(path) == 0 or True else key}"
+            rp = {"input_kind": "deletion", "store": base, "path": list(path), "key": key, "direction": direction,
+                  "how": "tools/c20.py replay: removes that member from the SDK-written store's JSON and compares"}
+            if raised is not None:
+                report_raise(chk, "json.check_json_files_equivalence", raised, esc_model, rp)
+            elif overall == 0 and not (same_data if same_data is not None else
+                                       (same_data := reread(p2) == base_reread[base])):
+                chk.fail(f"C20:equivalence:undetected-removal:{label}",
+                         f"the {base} store and a copy without the member {key!r} at {list(path)} ({direction}) compare as "
+                         f"equal although the SDK reads them as different data", rp)
+    chk.cov["member_removals_tried"] = ndel
 
 
 def replay(path):
@@ -1122,6 +1336,37 @@ def replay(path):
             print("raised:", repr(raised), "steps:", statuses, "overall:", overall)
             return 1 if raised is not None or overall != max(statuses, default=0) else 0
         kind = rp.get("input_kind") or ""
+        if kind == "history":
+            files = history_files(tmp)
+
+            def run(fname, kinds, cleanup):
+                ext = fname.split(".")[0]
+                fn = one.get(fname) or two[fname]
+                raised, statuses, overall = call(fn, *[files[ext][k] for k in kinds], cleanup=cleanup)
+                return type(raised).__name__ if raised is not None else None, statuses
+            detach_managers()
+            for fname, kinds in rp["earlier_calls"]:
+                run(fname, kinds, False)
+            got = run(rp["function"], rp["inputs"], False)
+            detach_managers()
+            want = run(rp["function"], rp["inputs"], True)
+            print("after the earlier calls:", got, " as first call:", want)
+            return 0 if got == want and got[0] is None else 1
+        if kind == "deletion":
+            st = directed_store() if rp.get("store") == "directed" else example_stores()["full"]
+            p1 = os.path.join(tmp, "a.json")
+            write_store(st, "json", p1)
+            d = canonical_doc(json.load(open(p1, encoding="utf-8")))
+            cur = d
+            for k in rp["path"]:
+                cur = cur[k]
+            del cur[rp["key"]]
+            p2 = os.path.join(tmp, "b.json")
+            json.dump(d, open(p2, "w", encoding="utf-8"))
+            a, b = (p1, p2) if rp.get("direction") != "reduced-vs-original" else (p2, p1)
+            raised, statuses, overall = call(two["json.check_json_files_equivalence"], a, b)
+            print("raised:", repr(raised), "steps:", statuses, "overall:", overall)
+            return 1 if raised is not None else 0
         if kind == "permuted":
             import random
             from basyx.aas.adapter.json import read_aas_json_file
